@@ -189,3 +189,37 @@ func (g *gen) thirdPartyMatrix(emit func(string, M) M) {
 		}
 	}
 }
+
+// scopeMatrix: granted scope lists (plain, with a repeated value) x requested scope lists of a refresh (empty, subset, repeated
+// value, one more scope, disjoint), each on a fresh grant of the client, followed by a plain refresh of whatever token is current -
+// over the chain the granted scope never grows.
+func (g *gen) scopeMatrix(emit func(string, M) M) {
+	granted := [][]string{{"openid", "offline_access"}, {"openid", "openid", "offline_access"}, {"openid", "email", "offline_access", "email"},
+		{"openid", "offline_access", "offline_access", "openid"}}
+	requested := [][]string{{}, {"openid"}, {"openid", "openid"}, {"openid", "email"}, {"phone"}, {"openid", "phone", "offline_access"},
+		{"offline_access", "email"}, {"openid", "profile", "email", "offline_access"}}
+	for _, c := range []string{"cw", "cp"} {
+		cl := g.w.Clients[c]
+		chall, ver := "none", "none"
+		if cl.Auth == "none" {
+			chall, ver = "s256:v1", "v1"
+		}
+		for _, gr := range granted {
+			for _, rq := range requested {
+				out := emit("Authorize", M{"client": c, "uri": cl.URIs[0], "rtype": "code", "rmode": "", "scopes": gr, "chall": chall, "state": "st1", "nonce": "n1"})
+				req := S(out, "req")
+				emit("Login", M{"req": req, "user": "u1"})
+				out = emit("Callback", M{"req": req})
+				_, rt, _ := lastNames(emit("CodeExchange", M{"caller": c, "cred": g.rightCred(c), "code": S(out, "code"), "uri": cl.URIs[0], "verifier": ver}))
+				if rt == "none" || rt == "" {
+					continue
+				}
+				out = emit("Refresh", M{"caller": c, "cred": g.rightCred(c), "rt": rt, "scopes": rq})
+				if _, next, _ := lastNames(out); next != "none" && next != "" {
+					rt = next
+				}
+				emit("Refresh", M{"caller": c, "cred": g.rightCred(c), "rt": rt, "scopes": []string{}})
+			}
+		}
+	}
+}
